@@ -744,6 +744,12 @@ func TestServer(t *testing.T) {
 	var reqs, trailers atomic.Int64
 	for round := 0; round < rounds && !r.TooMany(); round++ {
 		e, h := newEnvMode(round%2 == 1, true, []int{0, 1, 2}[round%3])
+		if round%2 == 0 {
+			// a middleware ahead of the LogMiddleware hands down a writer that has the three basic methods
+			// and Unwrap, nothing else: Flush and Hijack have to find the real writer through it
+			inner := h
+			h = http.HandlerFunc(func(w http.ResponseWriter, r *http.Request) { inner.ServeHTTP(minimalWriter{w}, r) })
+		}
 		srv := httptest.NewServer(h)
 		clients := 2 + round%7
 		var mu sync.Mutex
@@ -915,3 +921,11 @@ func TestHybridBase(t *testing.T) {
 		t.Fail()
 	}
 }
+
+// minimalWriter hides every optional interface of the writer it wraps and offers Unwrap instead.
+type minimalWriter struct{ rw http.ResponseWriter }
+
+func (m minimalWriter) Header() http.Header         { return m.rw.Header() }
+func (m minimalWriter) Write(b []byte) (int, error) { return m.rw.Write(b) }
+func (m minimalWriter) WriteHeader(code int)        { m.rw.WriteHeader(code) }
+func (m minimalWriter) Unwrap() http.ResponseWriter { return m.rw }
